@@ -115,6 +115,11 @@ fn engine_shard(id: &str, tier: &str, seed: u64, replay: Option<&serde_json::Val
                 out.found.push(f);
             }
         }
+        if id == "C09" && out.found.is_empty() && replay.map(|r| r["replay"]["origin"] == "id-space-overlap").unwrap_or(shard.k == 2 % shard.n) {
+            if let Some(f) = checks_c09::id_space_overlap_part(&mut out.cov) {
+                out.found.push(f);
+            }
+        }
         if id == "C09" && replay.is_none() && out.found.is_empty() {
             // concurrent part: clients acting at the same time vs. each alone
             let c = checks_c09::shard_run(tier, seed, shard);
